@@ -614,6 +614,20 @@ def gen_merge(rng):
     elif joint == "gap":
         for k in ("left", "center", "right"):
             b[k] = [[p[0] + 2.0, p[1] + 1.0] + p[2:] for p in b[k]]
+    if joint == "exact":
+        v = rng.random()
+        if v < 0.15:
+            # the successor comes back to where it started (a roundabout lane, a turning loop): its last vertices are the
+            # joint again; they are vertices of the successor like any other
+            for k in ("left", "center", "right"):
+                b[k].append(list(a[k][-1]))
+            joint = "exact"
+        elif v < 0.3:
+            # map coordinates (UTM-like magnitudes, powers of two so that nothing is rounded): the spacing of the
+            # vertices is tiny relative to the coordinates
+            for g_ in (a, b):
+                for k in ("left", "center", "right"):
+                    g_[k] = [[p[0] + 524288.0, p[1] + 5242880.0] + p[2:] for p in g_[k]]
     ida, idb = rng.sample(range(1, 400), 2)
     others = [i for i in rng.sample(range(400, 500), 4)]
     rel = rng.choice(["succ", "pred", "both", "succ", "both", "none", "cycle"])
